@@ -76,9 +76,6 @@ func mkWorld() *world {
 		w.byAddr[p.addr.String()] = i
 		w.blocked = append(w.blocked, bk.BlockedAddr(p.addr))
 	}
-	if !w.blocked[pM] {
-		panic("harness: the auction module account is expected to be a blocked address")
-	}
 	return w
 }
 
@@ -284,6 +281,10 @@ func smallAmt(r *c.Rng) *big.Int {
 func (w *world) seq(out *c.Out, seq int, r *c.Rng) {
 	ctx, _ := w.base.CacheContext()
 	k := w.tApp.GetAuctionKeeper()
+	if !w.blocked[pM] && seq < 4 {
+		// EnvOk of the theorems: without it any user can send coins into the module account
+		out.Violation("app wiring: the auction module account is not a blocked address of x/bank; custody (module balance = coins of open auctions) can be broken by a plain MsgSend")
+	}
 	ps := pickParams(r)
 	k.SetParams(ctx, auctiontypes.NewParams(ps.maxDur, ps.fwdDur, ps.revDur, ps.incS, ps.incD, ps.incC))
 	// funding through real bank operations
@@ -645,6 +646,6 @@ func main() {
 	out := c.NewOut(c.OutPath())
 	defer out.Close()
 	r := c.NewRng(c.Seed())
-	n := c.Budget(400, 8000)
+	n := c.Budget(400, 5000)
 	kapp.RunSeqs(n, c.Workers(), r, mkWorld, func(w *world, seq int, r *c.Rng) { w.seq(out, seq, r) })
 }
